@@ -178,7 +178,7 @@ def check_user(case, rec):
     for key in list(user) + case.get('probe', []):
         if key not in user and key not in TABLE:
             continue
-        check_key({'syntax': syntax, 'key': key, 'user': user}, rec)
+        check_key({'syntax': syntax, 'key': key, 'user': user, 'scope': case.get('scope')}, rec)
 
 
 CHECKS = {'key': check_key, 'keyword': check_keyword, 'user': check_user}
@@ -234,8 +234,9 @@ def user_strategy():
                 seen.add(k.lower())
                 out[k] = v
         return out
-    return st.builds(lambda es, s, pr: {'user': table(es), 'syntax': s, 'probe': pr}, st.lists(entry, min_size=1, max_size=5), st.sampled_from(SYNTAXES),
-                     st.lists(st.sampled_from(shipped), max_size=3))
+    # under a restricting scope as well (the cached variant then goes through the scope filter with a cache the shipped table has filled)
+    return st.builds(lambda es, s, pr, sc: {'user': table(es), 'syntax': s, 'probe': pr, 'scope': sc}, st.lists(entry, min_size=1, max_size=5), st.sampled_from(SYNTAXES),
+                     st.lists(st.sampled_from(shipped), max_size=3), st.sampled_from([None, None, '@@section', '@@property', '@@global']))
 
 
 def shard_user(ctx, shard, nshards, n):
